@@ -203,7 +203,7 @@ def c07(tier, seed):
     c = Check("C07", tier, seed)
     c.rule = ("MC (VirtQueueMC, Adversary=TRUE): the transcribed add/pop/recycle code against a device that writes ANY used element (ids of other chains, free descriptors, out of range) and ANY used index, queue size 2, direct / event-idx (indirect in the thorough tier): descriptor exclusivity, free-list exactness, ledger and never-blocked invariants; negative configuration (no token check) must fail. "
               "Traces: (1) the public VirtQueue API against the misbehaving reference device (bogus / duplicate / dropped completions, arbitrary lengths, index jumps), each scenario recorded twice - the device only pretending to scribble over descriptor table and available ring, and really doing it - the second recording must equal the first event for event and is validated against VirtQueue.tla (scribbling is a stuttering step); "
-              "(2) every driver (block, console, network raw+buffered, socket, input, sound, entropy, clock, 9P, GPU) on all transports under the same adversary plus garbled response bytes and arbitrary configuration-space values / queue-size limits: each queue's trace validated against VirtQueue.tla with cfg.adv (the driver half of every add/pop/recycle/unshare must still be exact), the driver-level stream against Adv.tla (call ends in result, clean panic or endless wait; DMA regions released once and as allocated; no heap memory freed while shared with the device while the driver is in use; frame-buffer slice within its DMA region)")
+              "(2) every driver (block, console, network raw+buffered, socket, input, sound, entropy, clock, 9P, GPU) on all transports under the same adversary plus garbled response bytes and arbitrary configuration-space values, configuration windows truncated to any length or missing, queue-size limits: each queue's trace validated against VirtQueue.tla with cfg.adv (the driver half of every add/pop/recycle/unshare must still be exact), the driver-level stream against Adv.tla (call ends in result, clean panic or endless wait; DMA regions released once and as allocated; no heap memory freed while shared with a live device - DRIVER_OK seen, no reset since - while the driver is in use; frame-buffer slice within its DMA region); (3) the command-response devices with scripted error / short / out-of-order answers against Cmd.tla (no DMA region released while a device resource points at it)")
     c.assumptions = ["a panic is 'clean' iff its source location is inside /repo (the crate's own checks, bounds checks and overflow checks of the profile built)",
                      "raw memory safety of accesses that change no observed value is outside what a specification can decide (DESIGN.md 5); LedgerHal bounces every buffer, so device writes cannot leave the shared range",
                      "configuration values that make a driver allocate more memory than the machine has (sound: streams) are excluded: allocator abort is resource exhaustion"]
@@ -415,7 +415,7 @@ def device_family(c, fam, module, cfg, seed, tier, max_events=600, extra=(), que
 
 def c14(tier, seed):
     c = Check("C14", tier, seed)
-    c.rule = "MC (BlkMC): every behaviour the guards allow with <=3 outstanding non-blocking requests, 2 sectors, statuses {0,1,3}, any answer/publication order, any poll; traces: random histories of read/write/flush/device_id (blocking) and read_nb/write_nb/complete_* with up to a queue-full outstanding, device statuses {0,1,2,3,9}, sectors incl. > 2^32, 1..128 sectors per request, completion in any order, on model / MMIO legacy+modern / PCI transports x servicing policies (notify-only, poll, late) x feature sets (none, FLUSH, RO, INDIRECT/EVENT_IDX, and the write-cache / topology / discard bits the driver does not implement offered without FLUSH); each decoded request and each result validated; queue-level traces validated against VirtQueue.tla"
+    c.rule = "MC (BlkMC): every behaviour the guards allow with <=3 outstanding non-blocking requests, 2 sectors, statuses {0,1,3}, any answer/publication order, any poll; traces: random histories of read/write/flush/device_id (blocking) and read_nb/write_nb/complete_* with up to a queue-full outstanding, device statuses {0,1,2,3,9}, sectors incl. > 2^32, 1..128 sectors per request, id strings of 0..20 bytes with and without terminator (length per IdLen), completion in any order, on model / MMIO legacy+modern / PCI transports x servicing policies (notify-only, poll, late) x feature sets (none, FLUSH, RO, INDIRECT/EVENT_IDX, and the write-cache / topology / discard bits the driver does not implement offered without FLUSH); each decoded request and each result validated; queue-level traces validated against VirtQueue.tla"
     c.assumptions = ["the reference block device decodes the request header per Virtio 1.2 5.2.6 (little-endian type/reserved/sector)", "data integrity is compared by 64-bit FNV digests"]
     c.add_mc(run_tlc_mc("BlkMC", "BlkMC.cfg", workers=MCW, timeout=900))
     device_family(c, "blk", "BlkTrace", "BlkTrace.cfg", seed, tier)
@@ -451,7 +451,7 @@ def c16(tier, seed):
 
 def c17(tier, seed):
     c = Check("C17", tier, seed)
-    c.rule = "MC (VsockCreditMC): the transmit credit window with real 32-bit free-running counters (two 16-bit limbs) started 3 below the wrap, peer buffer 3 bytes, peer consuming and reporting at arbitrary instants, sends of 0..4 bytes: in-flight never exceeds the peer's space, at most one credit request per refusal episode; negative configuration (non-modular compare) overruns; Apalache (SMT): peer_free as coded = true free space for all 32-bit counter values after up to 2^18 wraps (CreditLemma.tla); traces: (a) connection-manager histories with random packetisation / read sizes, capacities 1,7,512,1024,65536, credit exhaustion, ring wrap-around, every packet's addressing/len/type/buf_alloc/fwd_cnt checked, bytes read compared run by run with bytes sent; (b) real-width wrap: 4.8 GB sent and 4.3 GB received+read on one connection so tx_cnt and fwd_cnt pass 2^32, counters checked on the wire with limb arithmetic"
+    c.rule = "MC (VsockCreditMC): the transmit credit window with real 32-bit free-running counters (two 16-bit limbs) started 3 below the wrap, peer buffer 3 bytes, peer consuming and reporting at arbitrary instants, sends of 0..4 bytes: in-flight never exceeds the peer's space, at most one credit request per refusal episode; negative configuration (non-modular compare) overruns; Apalache (SMT): peer_free as coded = true free space for all 32-bit counter values after up to 2^18 wraps (CreditLemma.tla); traces: (a) connection-manager histories with random packetisation (payloads up to one that fills a receive buffer exactly) / read sizes, capacities 1,7,512,1024,65536, credit exhaustion, ring wrap-around, every packet's addressing/len/type/buf_alloc/fwd_cnt checked, bytes read compared run by run with bytes sent; (b) real-width wrap: 4.8 GB sent and 4.3 GB received+read on one connection so tx_cnt and fwd_cnt pass 2^32, counters checked on the wire with limb arithmetic"
     c.assumptions = ["the scripted peer honours the credit the driver advertises (fills in its credit fields at delivery time)", "peer byte streams are affine (+7 mod 256) so runs can be compared without logging payloads"]
     c.add_mc(run_tlc_mc("VsockCreditMC", "VsockCredit_ok.cfg", workers=4, timeout=600))
     c.add_mc(run_tlc_mc("VsockCreditMC", "VsockCredit_bug_nowrap.cfg", workers=4, timeout=600), expect_violation=True)
@@ -485,7 +485,7 @@ def c19(tier, seed):
 
 def c20(tier, seed):
     c = Check("C20", tier, seed)
-    c.rule = "MC (PcmMC): pcm_xfer transcribed, 5-7 bytes in periods of 1-2, ring of 2-3 slots, device completing in order: chunks consecutive, <= period, <= capacity outstanding, terminates with success (liveness under fairness); negative configuration with an out-of-order device yields WrongToken with chains posted (known finding D11); Apalache (SMT): inductive invariant of the same transcription for every frame count and period up to 10^9 and rings of 1..4 slots (PcmInd.tla: base, step, implies Safety; step refuted for an out-of-order device); traces: entropy, clock (every status, clock ids 0..65535, all type/smearing codes), 9P (request/response sizes, bad size header), GPU (resolution, framebuffer setup / re-setup, flush, cursor setup/move, EDID with/without the feature; an error response injected at any command of any operation; DMA ledger of backing memory) and sound (control requests with set_up prefix, parameter validation, PCM blocking transfers with arbitrary frame counts vs period, non-blocking transfers completed in any order, error statuses) on all transports and policies, every decoded request field compared with the caller's parameters"
+    c.rule = "MC (PcmMC): pcm_xfer transcribed, 5-7 bytes in periods of 1-2, ring of 2-3 slots, device completing in order: chunks consecutive, <= period, <= capacity outstanding, terminates with success (liveness under fairness); negative configuration with an out-of-order device yields WrongToken with chains posted (known finding D11); Apalache (SMT): inductive invariant of the same transcription for every frame count and period up to 10^9 and rings of 1..4 slots (PcmInd.tla: base, step, implies Safety; step refuted for an out-of-order device); traces: entropy, clock (every status, clock ids 0..65535, all type/smearing codes), 9P (request/response sizes, bad size header), GPU (resolution, framebuffer setup / re-setup, flush, cursor setup/move, EDID with/without the feature; an error response injected at any command of any operation; DMA ledger of backing memory) and sound (control requests with set_up prefix, parameter validation, PCM blocking transfers with arbitrary frame counts vs period (1..96 periods, exactly one and two ring-fuls included, devices up to 40 driver polls late), non-blocking transfers completed in any order, error statuses) on all transports and policies, every decoded request field compared with the caller's parameters"
     c.assumptions = ["request decoding in harness/src/scen_cmd.rs follows the wire layouts of Virtio 1.2 5.7 / 5.14 and the rtc / 9p device definitions", "EDID parsing is covered by the repository's own vectors only (see DESIGN.md)"]
     mc(c, ["Pcm_inorder", "Pcm_inorder_b"], tier, module="PcmMC", negative=["Pcm_bug_ooo_device"])
     # the same transcription for EVERY frame count and period (ring of up to 4 slots): an inductive
